@@ -24,7 +24,7 @@ Suppressions:
 from src.analyzers.rust_base import TREE_SITTER_RUST_AVAILABLE
 from src.core.base import BaseLintContext, MultiLanguageLintRule
 from src.core.constants import Language
-from src.core.linter_utils import load_linter_config
+from src.core.linter_utils import load_linter_config, path_in_project
 from src.core.types import Violation
 from src.linter_config.ignore import get_ignore_parser
 
@@ -140,7 +140,7 @@ class SRPRule(MultiLanguageLintRule):
         if not config.ignore:
             return False
 
-        file_path = str(context.file_path)
+        file_path = str(path_in_project(context) or context.file_path)
         return any(pattern in file_path for pattern in config.ignore)
 
     def _check_python(self, context: BaseLintContext, config: SRPConfig) -> list[Violation]:
